@@ -18,8 +18,8 @@ package control
 // strict = what the property speaks about (call accepted or not, fingerprint of the whole table, cache
 // contents, mirror flag), drift = bookkeeping (batch shapes, refresh queue, expiry/refresh/LRU policy, stamps).
 //   c10t : tnew | tupd <ok|uf|df> <owner> <bmlen> <bits> <ans>* | trm <ok|uf|df> <owner> | tnil upd|rm |
-//          tnobpf upd|rm <owner> | tdump            (uf/df: the update / delete batch syscall fails)
-//   c10c : cnew <opt> <optTtl> <max> | put <key|~> <fqdn> <qtype> <ttl> <fixedTtl|-> <bits> <ans>* | del <key> |
+//          tnobpf upd|rm <owner> | tnomap <owner> <bits> <ans>* | tdump            (uf/df: the update / delete batch syscall fails)
+//   c10c : cnew <opt> <optTtl> <max> <real> | put|putf <key|~> <fqdn> <qtype> <ttl> <fixedTtl|-> <bits> <ans>* | del <key> |
 //          fam <base> <observed order>* | look <key> <ignoreFixed> <evicted> <queued> | jan <observed order>* |
 //          sleep <ns> | work | touch <key> | hot <key> <packed> <evicted> <queued> | reload <key=bits>* | cdump
 // Virtual time: every cache history runs inside a testing/synctest bubble; every cache op starts 1 ns after
@@ -77,7 +77,10 @@ func c10KeyBytes(k [4]uint32) [16]byte { return *(*[16]byte)(unsafe.Pointer(&k))
 
 func (o *c10Observer) install() {
 	VerifC10BatchUpdateHook = func(m *ebpf.Map, keys interface{}, values interface{}) (int, error) {
-		ks := keys.([][4]uint32)
+		ks, isDomain := keys.([][4]uint32)
+		if !isDomain {
+			return 0, nil // another map (routing_map during BuildKernspace): not C10's subject
+		}
 		vs := values.([]bpfDomainRouting)
 		if len(ks) != len(vs) {
 			panic("c10: keys/values length differ")
@@ -658,6 +661,22 @@ func c10RunTrackerStream(t *testing.T, stats *VStats) {
 		if everShared {
 			stats.Inc("t.histories_with_shared_address")
 		}
+		if r.Chance(0.05) {
+			// DomainRoutingMap == nil (a generation without the map): the tracker is updated, nothing is sent.
+			// Last op of the history: afterwards tracker and table disagree by construction.
+			owner := "o" + strconv.Itoa(1+r.Intn(nOwners))
+			bm, ans := g.bitmap(), g.answers()
+			cache := &DnsCache{RouteOwnerKey: owner, DomainBitmap: c10ParseBits(bm, 32)}
+			for _, a := range ans {
+				cache.Answer = append(cache.Answer, c10MakeAns(a, "h.example."))
+			}
+			saved := core.bpf.Load()
+			core.bpf.Store(&bpfObjects{})
+			out := call(func() error { return core.BatchUpdateDomainRouting(cache) }, owner, false)
+			core.bpf.Store(saved)
+			stats.Inc("t.op.no_domain_routing_map")
+			st.Emit(strings.TrimRight(fmt.Sprintf("tnomap %s %s %s", owner, bm, strings.Join(ans, " ")), " "), out)
+		}
 		st.Emit("tdump", c10Line(obs.kernelStr(), c10TrackerStr(core.domainRouting)))
 	}
 }
@@ -696,6 +715,10 @@ type c10Cache struct {
 	order   []string // keys for which a delete callback ran during the current op
 	synced  []string // keys for which an access callback ran during the current op
 	gen     int
+	// real-loops mode: the controller is built by NewDnsController, its janitor ticker, evictor and refresh
+	// worker goroutines run for real inside the synctest bubble
+	real     bool
+	tickBase time.Time
 	// race probe only: run once between the cache-map mutation and the tracker sync of the next put / removal
 	midAccess func()
 	midDelete func()
@@ -766,8 +789,9 @@ func (w *c10Cache) newGeneration(bpf *bpfObjects) (*controlPlaneCore, *ControlPl
 	return core, plane, opt
 }
 
-func c10NewCacheWorld(obs *c10Observer, stats *VStats, optEnabled bool, optTtl, maxSize int) *c10Cache {
+func c10NewCacheWorld(obs *c10Observer, stats *VStats, optEnabled bool, optTtl, maxSize int, real ...bool) *c10Cache {
 	w := &c10Cache{obs: obs, stats: stats, t0: time.Now(), matcher: &c10Matcher{}, fixed: map[string]int{}}
+	w.real = len(real) > 0 && real[0]
 	w.cfg = [3]int{0, optTtl, maxSize}
 	if optEnabled {
 		w.cfg[0] = 1
@@ -780,14 +804,24 @@ func c10NewCacheWorld(obs *c10Observer, stats *VStats, optEnabled bool, optTtl, 
 	// a controller without its background goroutines: janitor runs are explicit `jan` ops, the refresh
 	// worker's channel is drained by explicit `work` ops (evictExpiredDnsCache / processBpfUpdateTask are the
 	// real functions, called on the facade the goroutines would be bound to).
-	ctrl := &DnsController{dnsControllerStore: newDnsControllerStore(), log: w.log, dnsForwarderIdleTTL: dnsForwarderIdleTTL}
-	if err := ctrl.TryUpdateRuntime(opt, nil); err != nil {
-		panic(err)
+	var ctrl *DnsController
+	if w.real {
+		var err error
+		if ctrl, err = NewDnsController(nil, opt); err != nil {
+			panic(err)
+		}
+		synctest.Wait() // janitor and evictor goroutines are parked on their channels
+		w.tickBase = time.Now()
+	} else {
+		ctrl = &DnsController{dnsControllerStore: newDnsControllerStore(), log: w.log, dnsForwarderIdleTTL: dnsForwarderIdleTTL}
+		if err := ctrl.TryUpdateRuntime(opt, nil); err != nil {
+			panic(err)
+		}
+		ctrl.bpfUpdateOnce.Do(func() {
+			ctrl.bpfUpdateCh = make(chan *bpfUpdateTask, 1024) // bpfUpdateQueueSize
+			ctrl.bpfUpdateStop = make(chan struct{})
+		})
 	}
-	ctrl.bpfUpdateOnce.Do(func() {
-		ctrl.bpfUpdateCh = make(chan *bpfUpdateTask, 1024) // bpfUpdateQueueSize
-		ctrl.bpfUpdateStop = make(chan struct{})
-	})
 	w.ctrl, w.bg = ctrl, ctrl
 	w.plane.dnsController = ctrl
 	return w
@@ -851,13 +885,21 @@ func (w *c10Cache) summary(extra string) string {
 	}
 	// what the evictor goroutine would do with anything queued for the remove callback (nothing is ever
 	// queued while dnsControllerOption leaves CacheRemoveCallback unset)
-	for len(w.bg.evictorQ) > 0 {
-		w.bg.invokeCacheRemoveCallback(<-w.bg.evictorQ)
+	if w.real {
+		synctest.Wait() // the real evictor / worker goroutines settle
+	} else {
+		for len(w.bg.evictorQ) > 0 {
+			w.bg.invokeCacheRemoveCallback(<-w.bg.evictorQ)
+		}
+		w.bg.drainEvictorSpill()
 	}
-	w.bg.drainEvictorSpill()
 	ok, n := w.mirror()
 	if !ok {
 		w.stats.Inc("c.mirror_broken")
+	}
+	if w.real { // which goroutine's call lands on which line is a race: not reported
+		w.obs.takeCalls()
+		return c10Line(fmt.Sprintf("n=%d %s m=%s", n, w.obs.tableFp(), c10B(ok)), extra+"calls=~ p=~")
 	}
 	return c10Line(fmt.Sprintf("n=%d %s m=%s", n, w.obs.tableFp(), c10B(ok)),
 		fmt.Sprintf("%s%s p=%d", extra, w.obs.takeCalls(), len(w.ctrl.bpfUpdateCh)))
@@ -893,6 +935,10 @@ func (w *c10Cache) dump() string {
 	// peek at the queue without consuming it
 	var pend []string
 	n := len(w.ctrl.bpfUpdateCh)
+	if w.real {
+		synctest.Wait()
+		n = 0
+	}
 	for i := 0; i < n; i++ {
 		task := <-w.ctrl.bpfUpdateCh
 		pend = append(pend, fmt.Sprintf("%s@%d", task.cache.RouteOwnerKey, task.now.Sub(w.t0).Nanoseconds()))
@@ -925,12 +971,35 @@ type c10Hist struct {
 	stats   *VStats
 	maxSize int
 	lastTtl int
+	failed  bool // a publish failure was injected in this history
 }
 
 // every op starts one (virtual) nanosecond after the previous one
 func (h *c10Hist) tick() {
+	if h.w.real && h.untilJanitor() == time.Nanosecond {
+		h.janReal() // the real ticker fires on this very nanosecond: that is an op of its own
+	}
 	time.Sleep(time.Nanosecond)
 	h.w.order, h.w.synced = nil, nil
+}
+
+// time until the next tick of the real janitor's ticker
+func (h *c10Hist) untilJanitor() time.Duration {
+	el := time.Since(h.w.tickBase)
+	return dnsCacheJanitorInterval - el%dnsCacheJanitorInterval
+}
+
+// one run of the REAL janitor goroutine (its 30 s ticker fires, evictExpiredDnsCache + evictIdleDnsForwarders)
+func (h *c10Hist) janReal() {
+	w := h.w
+	w.order, w.synced = nil, nil
+	time.Sleep(time.Nanosecond)
+	out := VRecover(func() string { return w.summary("legal=1 ") }) // summary waits for the goroutine
+	if len(w.order) > 0 {
+		h.stats.Add("c.janitor_evictions_by_real_ticker", len(w.order))
+	}
+	h.stats.Inc("c.op.jan_real_ticker")
+	h.st.Emit(strings.TrimRight("jan "+strings.Join(w.order, " "), " "), out)
 }
 
 // mixed-case spelling of a host, with or without the trailing dot (what a client may ask)
@@ -970,19 +1039,30 @@ func (h *c10Hist) put(k c10Key, ttl int, bm string, ans []string, unkeyed bool) 
 		keyTok = "~"
 	}
 	host := h.spell(k.name)
-	op := strings.TrimRight(fmt.Sprintf("put %s %s %d %d %s %s %s", keyTok, k.name, k.qtype, ttl, fttlTok, bm, strings.Join(ans, " ")), " ")
+	verb := "put"
+	// the update batch of this put's publish fails (if it sends one). Not in real-loops mode: there the worker
+	// repairs it concurrently with the lookup that queued the refresh, which has no line of its own.
+	inject := h.r.Chance(0.04) && !w.real
 	out := VRecover(func() string {
 		var err error
+		w.obs.failUpd = inject
 		if unkeyed {
 			err = w.ctrl.UpdateDnsCacheTtl(host, k.qtype, rrs, nil, nil, ttl)
 		} else {
 			err = w.ctrl.UpdateDnsCacheTtlWithKey(k.key(), host, k.qtype, rrs, nil, nil, ttl)
 		}
+		w.obs.failUpd = false
 		if err != nil {
-			return "err:" + err.Error()
+			if !errors.Is(err, errC10Injected) {
+				return "err:" + err.Error()
+			}
+			verb = "putf" // entry stored, publish failed: the table lags until the refresh worker retries
+			h.failed = true
+			h.stats.Inc("c.op.put_with_failed_publish")
 		}
 		return w.summary("")
 	})
+	op := strings.TrimRight(fmt.Sprintf("%s %s %s %d %d %s %s %s", verb, keyTok, k.name, k.qtype, ttl, fttlTok, bm, strings.Join(ans, " ")), " ")
 	h.stats.Inc("c.op.put")
 	if unkeyed {
 		h.stats.Inc("c.op.put_unkeyed")
@@ -1015,6 +1095,9 @@ func (h *c10Hist) look(k c10Key, ig bool) {
 	before := len(w.ctrl.bpfUpdateCh)
 	out := VRecover(func() string { w.ctrl.LookupDnsRespCache(k.key(), ig); return w.summary("pred=1 ") })
 	queued := len(w.ctrl.bpfUpdateCh) > before
+	if w.real { // the real worker has run already: its access callback is the evidence
+		queued = len(w.synced) > 0
+	}
 	evicted := len(w.order) > 0
 	if queued {
 		h.stats.Inc("c.refresh_queued")
@@ -1024,6 +1107,9 @@ func (h *c10Hist) look(k c10Key, ig bool) {
 	}
 	h.stats.Inc("c.op.look")
 	h.st.Emit(fmt.Sprintf("look %s %s %s %s", k.key(), c10B(ig), c10B(evicted), c10B(queued)), out)
+	if w.real && queued {
+		h.workReal(k.key())
+	}
 }
 
 func (h *c10Hist) jan() {
@@ -1043,10 +1129,34 @@ func (h *c10Hist) jan() {
 }
 
 func (h *c10Hist) sleep(d time.Duration) {
+	for h.w.real && d > 0 { // never sleep across a tick of the real janitor: each tick is a `jan` line
+		h.tick()
+		chunk := d
+		if u := h.untilJanitor() - time.Nanosecond; chunk > u {
+			chunk = u
+		}
+		d -= chunk
+		if chunk > 0 {
+			time.Sleep(chunk)
+		}
+		h.stats.Inc("c.op.sleep")
+		h.st.Emit("sleep "+strconv.FormatInt(chunk.Nanoseconds(), 10), h.w.summary(""))
+		if d == 0 {
+			return
+		}
+	}
 	h.tick()
 	time.Sleep(d)
 	h.stats.Inc("c.op.sleep")
 	h.st.Emit("sleep "+strconv.FormatInt(d.Nanoseconds(), 10), h.w.summary(""))
+}
+
+// real-loops mode: the worker goroutine has already processed what the last lookup queued; the model needs
+// its `work` step
+func (h *c10Hist) workReal(key string) {
+	h.tick()
+	h.stats.Inc("c.op.work_by_real_worker")
+	h.st.Emit("work", h.w.summary(""))
 }
 
 func (h *c10Hist) work() {
@@ -1096,6 +1206,9 @@ func (h *c10Hist) hot(k c10Key) {
 	})
 	packed := entry != nil && entry.GetPackedResponse() != nil
 	queued := len(w.ctrl.bpfUpdateCh) > before
+	if w.real {
+		queued = len(w.synced) > 0
+	}
 	evicted := len(w.order) > 0
 	if queued {
 		h.stats.Inc("c.refresh_queued")
@@ -1108,6 +1221,9 @@ func (h *c10Hist) hot(k c10Key) {
 	}
 	h.stats.Inc("c.op.hot")
 	h.st.Emit(fmt.Sprintf("hot %s %s %s %s", k.key(), c10B(packed), c10B(evicted), c10B(queued)), out)
+	if w.real && queued {
+		h.workReal(k.key())
+	}
 }
 
 // reload with a reused controller: new core (fresh tracker) on the shared BPF objects, the shared map is
@@ -1150,12 +1266,52 @@ func (h *c10Hist) reload(newBitmaps map[string]string) {
 	h.st.Emit(strings.TrimRight("reload "+strings.Join(assign, " "), " "), out)
 }
 
+// reload ROLLBACK of the current generation: the real ControlPlane.RebuildReloadDatapath (BuildKernspace of a
+// one-rule program, ReplaceLpmIndices, clearReloadDomainRoutingMap, CloneDnsCache, replayDnsReloadCache).
+// For the model it is a reload step: a cleared table and the cache restored into it.
+func (h *c10Hist) rollback(newBitmaps map[string]string) {
+	h.tick()
+	w := h.w
+	var assign []string
+	out := VRecover(func() string {
+		if w.plane.routingKernspaceSnapshot == nil {
+			w.plane.routingKernspaceSnapshot = &routingKernspaceSnapshot{rules: []bpfMatchSet{{Type: uint8(consts.MatchType_Fallback)}}}
+		}
+		bpf := w.core.bpf.Load()
+		if bpf.RoutingMetaMap == nil {
+			m, err := ebpf.NewMap(&ebpf.MapSpec{Type: ebpf.Array, KeySize: 4, ValueSize: 4, MaxEntries: 1})
+			if err != nil {
+				return "err:" + err.Error()
+			}
+			bpf.RoutingMetaMap = m
+		}
+		w.matcher.byFqdn = map[string][]uint32{}
+		for fqdn, bm := range newBitmaps {
+			w.matcher.byFqdn[fqdn] = c10ParseBits(bm, 32)
+		}
+		w.synced = nil
+		err := w.plane.RebuildReloadDatapath()
+		w.matcher.byFqdn = nil
+		if err != nil {
+			return "err:" + err.Error()
+		}
+		for _, key := range w.synced {
+			if v, ok := w.ctrl.dnsCache.Load(key); ok {
+				assign = append(assign, key+"="+c10Bits(v.(*DnsCache).DomainBitmap))
+			}
+		}
+		return w.summary("legal=1 ")
+	})
+	h.stats.Inc("c.op.rollback")
+	h.st.Emit(strings.TrimRight("reload "+strings.Join(assign, " "), " "), out)
+}
+
 func (h *c10Hist) dump() {
 	h.st.Emit("cdump", h.w.dump())
 	h.stats.Inc("c.op.dump")
 }
 
-func c10RunCacheHistory(st *VStream, r *VRand, obs *c10Observer, stats *VStats, g *c10Gen, scripted bool) {
+func c10RunCacheHistory(st *VStream, r *VRand, obs *c10Observer, stats *VStats, g *c10Gen, scripted, real bool) {
 	optEnabled := r.Chance(0.3)
 	optTtl := []int{0, 0, 5, 60}[r.Intn(4)]
 	maxSize := []int{0, 0, 2, 3, 5}[r.Intn(5)]
@@ -1164,9 +1320,13 @@ func c10RunCacheHistory(st *VStream, r *VRand, obs *c10Observer, stats *VStats, 
 		maxSize = []int{0, 8, 20}[r.Intn(3)]
 		stats.Inc("c.histories_with_10_to_40_keys")
 	}
-	w := c10NewCacheWorld(obs, stats, optEnabled, optTtl, maxSize)
-	st.Emit(fmt.Sprintf("cnew %s %d %d", c10B(optEnabled), optTtl, maxSize), c10Line("ok", ""))
+	w := c10NewCacheWorld(obs, stats, optEnabled, optTtl, maxSize, real)
+	st.Emit(fmt.Sprintf("cnew %s %d %d %s", c10B(optEnabled), optTtl, maxSize, c10B(real)), c10Line("ok", ""))
 	stats.Inc("c.histories")
+	if real {
+		stats.Inc("c.histories_with_real_goroutine_loops")
+		defer func() { _ = w.ctrl.Close() }()
+	}
 	if maxSize > 0 {
 		stats.Inc("c.histories_with_lru_limit")
 	}
@@ -1226,6 +1386,21 @@ func c10RunCacheHistory(st *VStream, r *VRand, obs *c10Observer, stats *VStats, 
 		h.work()
 		h.dump()
 	}
+	if real && r.Chance(0.5) {
+		// the refresh worker goroutine is started lazily, by the first refresh: let that happen in a later
+		// generation, then reload twice more and refresh again (the worker must still serve the live generation)
+		k := keys[0]
+		h.reload(h.newBitmaps())
+		h.put(k, 300, "5.40", []string{"4:0a000001", "4:0a000002"}, false)
+		h.sleep(61 * time.Second)
+		h.look(k, false)
+		h.reload(h.newBitmaps())
+		h.reload(h.newBitmaps())
+		h.sleep(61 * time.Second)
+		h.look(k, false)
+		h.dump()
+		stats.Inc("c.histories_with_late_started_worker")
+	}
 	nOps := r.Range(1, 60)
 	if many {
 		for _, k := range keys { // fill the cache first
@@ -1277,8 +1452,10 @@ func c10RunCacheHistory(st *VStream, r *VRand, obs *c10Observer, stats *VStats, 
 			h.work()
 		case x < 94:
 			h.touch(k)
-		case x < 97:
+		case x < 96:
 			h.reload(h.newBitmaps())
+		case x < 97:
+			h.rollback(h.newBitmaps())
 		default:
 			if r.Bool() {
 				w.fixed[strings.TrimSuffix(c10Names[r.Intn(len(c10Names))], ".")] = []int{0, 1, 5, 600}[r.Intn(4)]
@@ -1292,7 +1469,7 @@ func c10RunCacheHistory(st *VStream, r *VRand, obs *c10Observer, stats *VStats, 
 		stats.Inc("c.histories_with_two_or_more_reloads")
 	}
 	// leave nothing behind in the bubble
-	for len(w.ctrl.bpfUpdateCh) > 0 {
+	for !real && len(w.ctrl.bpfUpdateCh) > 0 {
 		<-w.ctrl.bpfUpdateCh
 	}
 }
@@ -1422,8 +1599,9 @@ func TestVerifC10(t *testing.T) {
 	}
 	for h := 0; h < histories; h++ {
 		scripted := h%4 == 3
+		real := h%3 == 1 && !scripted // real janitor ticker, evictor and refresh worker goroutines
 		synctest.Test(t, func(t *testing.T) {
-			c10RunCacheHistory(st, r, obs, stats, g, scripted)
+			c10RunCacheHistory(st, r, obs, stats, g, scripted, real)
 		})
 	}
 	probe := func(name string, f func(*c10Observer, *VStats) string) {
